@@ -28,8 +28,8 @@ func at(off int64) time.Time { return genesisTime.Add(time.Duration(off)) }
 
 const sec = int64(time.Second)
 
-// TimerCfg is one epoch timer of a configuration. Identifiers are chosen so that the store's key
-// order is the slice order.
+// TimerCfg is one epoch timer of a configuration. The slice order of a configuration is the store's key
+// order of the identifiers.
 type TimerCfg struct {
 	ID    string
 	Dur   int64 // ns
@@ -41,12 +41,14 @@ type TimerCfg struct {
 // by 10 s or 9 s+1 s.
 const t0 = 3 * sec
 
+// Identifiers are chosen so that the timer that starts later sorts first in the store: the keeper serves
+// timers in key order, and an early exit at a not-yet-started or just-ticked timer must not starve the rest.
 var configs = [][]TimerCfg{
-	{{ID: "A", Dur: 10 * sec, Start: t0}},
-	{{ID: "A", Dur: 10 * sec, Start: t0}, {ID: "B", Dur: 25 * sec, Start: t0 + 7*sec}},
+	{{ID: "B10", Dur: 10 * sec, Start: t0}},
+	{{ID: "A25", Dur: 25 * sec, Start: t0 + 7*sec}, {ID: "B10", Dur: 10 * sec, Start: t0}},
 }
 
-var configNames = []string{"A:10s@t0", "A:10s@t0,B:25s@t0+7s"}
+var configNames = []string{"B10:10s@t0", "A25:25s@t0+7s,B10:10s@t0"}
 
 var deltas = []int64{0, 1 * sec, 9 * sec, 10 * sec, 10*sec + 1, 11 * sec, 25 * sec, 61 * sec}
 var deltaNames = []string{"0", "1s", "9s", "10s", "10s+1ns", "11s", "25s", "61s"}
@@ -117,6 +119,9 @@ type World struct {
 	cur       State
 	haveCur   bool
 
+	reqs  chan sdk.Context
+	resps chan blockResp
+
 	// set per block by the driver
 	plan  []Dev
 	block int
@@ -133,7 +138,7 @@ func init() {
 		cntKeys[s] = []byte{'c', '/', byte('0' + s)}
 		for t := 0; t < 2; t++ {
 			for k := 0; k < 2; k++ {
-				markKeys[s][t][k] = []byte{'m', '/', byte('0' + s), '/', byte('A' + t), '/', byte('0' + k)}
+				markKeys[s][t][k] = []byte{'m', '/', byte('0' + s), '/', byte('0' + t), '/', byte('0' + k)}
 			}
 		}
 	}
@@ -316,6 +321,26 @@ func (w *World) SetState(s State) {
 	w.cur, w.haveCur = s, true
 }
 
+type blockResp struct {
+	panicked bool
+	val      interface{}
+}
+
+func (w *World) worker() {
+	for ctx := range w.reqs {
+		var rp blockResp
+		func() {
+			defer func() {
+				if r := recover(); r != nil {
+					rp.panicked, rp.val = true, r
+				}
+			}()
+			w.K.BeginBlocker(ctx)
+		}()
+		w.resps <- rp
+	}
+}
+
 // BlockResult is everything observable about one driven block.
 type BlockResult struct {
 	Ctx      sdk.Context // the branch the block ran on
@@ -337,14 +362,15 @@ func (w *World) RunBlock(s State, block int, tOff int64, plan []Dev) BlockResult
 	child = child.WithBlockHeight(int64(block)).WithBlockTime(at(tOff))
 	w.plan, w.block, w.log = plan, block, w.log[:0]
 	res := BlockResult{Ctx: child}
-	func() {
-		defer func() {
-			if r := recover(); r != nil {
-				res.Panicked, res.PanicVal = true, r
-			}
-		}()
-		w.K.BeginBlocker(child)
-	}()
+	// BeginBlocker runs on a helper goroutine with a shallow stack: the code under test takes a full stack
+	// trace (debug.Stack) at every recovered panic, whose cost grows with the explorer's recursion depth.
+	if w.reqs == nil {
+		w.reqs, w.resps = make(chan sdk.Context), make(chan blockResp)
+		go w.worker()
+	}
+	w.reqs <- child
+	rp := <-w.resps
+	res.Panicked, res.PanicVal = rp.panicked, rp.val
 	res.Log = append([]Inv(nil), w.log...)
 	if !res.Panicked {
 		res.Events = child.EventManager().Events()
